@@ -4,6 +4,8 @@ go 1.20
 
 require github.com/multiversx/mx-chain-storage-go v0.0.0
 
+require github.com/hashicorp/golang-lru v0.6.0 // indirect
+
 require (
 	github.com/denisbrodbeck/machineid v1.0.1 // indirect
 	github.com/gogo/protobuf v1.3.2 // indirect
